@@ -617,6 +617,9 @@ def evaluate(chk: core.Check, scenarios: list, label: str):
         if any("harness_error" in st for st in res["steps"]):
             chk.coverage["child_retries"] = chk.coverage.get("child_retries", 0) + 1
             results[i] = run_scenario(sc, timeout=600.0)
+            bad = [st for st in results[i]["steps"] if "harness_error" in st]
+            if bad:  # stop at the FIRST scenario that fails twice (do not spend 600 s on each of many)
+                raise core.HarnessError("exmod child did not answer twice (120 s in parallel, 600 s alone): %s" % (bad[0]["harness_error"],))
     reqs, where = [], []
     for sc, res in zip(scenarios, results):
         for k, st in enumerate(res["steps"]):
